@@ -2,7 +2,9 @@ import Chewing.Model.TrieCodec
 import Chewing.Proofs.TrieSpec
 /-!
 The fuzzy-prefix walk on the tree reaches exactly the nodes whose path has the query's length and
-matches it syllable by syllable, each once.
+matches it syllable by syllable, each once.  (The code's predicate is false for a stored syllable field that
+`Syllable::try_from` rejects — `matchSyl … = n != 0 && validCode n && startsWith n syl`; every node of a
+well-formed forest carries a valid code (`Forest.WF`), so on the builder tree the predicate is `startsWith`.)
 -/
 namespace Chewing.TrieCodec
 open Chewing Chewing.Der
@@ -87,7 +89,7 @@ theorem mem_toItems_iff {f : Forest} (hf : f.WF) (k : Item) :
   induction f with
   | nil => simp [Forest.toItems, Forest.child]
   | cons t l sub next _ ih =>
-    obtain ⟨_, _, h3, _, _, _, h7⟩ := hf
+    obtain ⟨_, _, _, h3, _, _, _, h7⟩ := hf
     simp only [Forest.toItems, List.mem_cons, Forest.child]
     constructor
     · rintro (h | h)
@@ -121,7 +123,7 @@ theorem mem_kids_node {s : Nat} {l : Option (List Phrase)} {sub : Forest} (hw : 
   · intro h; exact Or.inr (mem_sortBy.mpr h)
 
 theorem fuzzy_syl_ne_zero {n p : Nat} (h : matchSyl .fuzzyPartialPrefix n p = true) : n ≠ 0 := by
-  simp [matchSyl] at h; exact h.1
+  simp [matchSyl] at h; exact h.1.1
 
 /-- the fuzzy walk reaches the node at `path` iff `path` matches the query -/
 theorem mem_reach_fuzzy (q : List Nat) :
@@ -166,12 +168,12 @@ theorem mem_reach_fuzzy (q : List Nat) :
         | some nd =>
           rw [hc] at h2
           simp only at h2
-          obtain ⟨hnd, ht0, _⟩ := child_WF hw hc
+          obtain ⟨hnd, ht0, _, htv⟩ := child_WF hw hc
           have hkm : Item.node t nd.1 nd.2 ∈ (Item.node s l sub).kids :=
             (mem_kids_node hw (.node t nd.1 nd.2) (by simp [Item.syl]; omega)).mpr ⟨nd, hc, rfl⟩
           refine ⟨.node t nd.1 nd.2, ⟨hkm, ?_⟩, (r, it), (ih t nd.1 nd.2 hnd.2.2 r it).mpr ⟨h1.2, h2⟩, rfl⟩
           simp only [matchSyl, Item.syl, Bool.and_eq_true, bne_iff_ne, ne_eq]
-          exact ⟨by omega, h1.1⟩
+          exact ⟨⟨by omega, htv⟩, h1.1⟩
 
 /-! ### each once -/
 
@@ -199,7 +201,7 @@ theorem toItems_syl_nodup {f : Forest} (hf : f.WF) : (f.toItems.map Item.syl).No
   induction f with
   | nil => simp [Forest.toItems]
   | cons t l sub next _ ih =>
-    obtain ⟨_, _, h3, _, _, _, h7⟩ := hf
+    obtain ⟨_, _, _, h3, _, _, _, h7⟩ := hf
     simp only [Forest.toItems, List.map_cons, List.nodup_cons]
     refine ⟨?_, ih h7⟩
     intro hm
